@@ -87,7 +87,7 @@ fn run_spelled_g<C: Codec>(c: &Case, trace: bool) -> RunOut {
             );
         }
         let ar = run_a::<C>(&pre, &c.read_script, c.read_tail, &[], trace, &mut out);
-        let pr = run_p::<C>(&pre, &c.read_script, c.read_tail, &[], &[], false, trace, &mut out);
+        let pr = run_p::<C>(&pre, &c.read_script, c.read_tail, &c.cancel, &[], false, trace, &mut out);
         for (name, fe) in [("A", &ar.fe), ("P", &pr.fe)] {
             let ok = matches!(fe, Fe::Err { e, .. } if C::norm(e).eof);
             if !ok {
@@ -128,6 +128,8 @@ pub fn gen(rng: &mut Rng, tier: Tier, idx: u64) -> Case {
     };
     let pp = *rng.pick(&[0u64, 0, 200]);
     let (script, tail) = gen_read_script(rng, len, pp, &[]);
+    let cp = *rng.pick(&[0u64, 500]);
+    c.cancel = gen_cancel(rng, &script, cp);
     c.read_script = script;
     c.read_tail = tail;
     c.reader_style = rng.below(3) as u8;
@@ -197,7 +199,7 @@ fn run_g<C: Codec>(c: &Case, trace: bool) -> RunOut {
         }
         // async and poll: the peer closes after k bytes
         let ar = run_a::<C>(&pre, &c.read_script, c.read_tail, &[], trace, &mut out);
-        let pr = run_p::<C>(&pre, &c.read_script, c.read_tail, &[], &[], false, trace, &mut out);
+        let pr = run_p::<C>(&pre, &c.read_script, c.read_tail, &c.cancel, &[], false, trace, &mut out);
         for (name, fe) in [("A", &ar.fe), ("P", &pr.fe)] {
             let ok = match fe {
                 Fe::Err { e, .. } => C::norm(e).eof,
@@ -224,7 +226,7 @@ fn run_g<C: Codec>(c: &Case, trace: bool) -> RunOut {
         let s = Rc::new(s);
         let b = fe_block::<C>(&s);
         let ar = run_a::<C>(&s, &c.read_script, c.read_tail, &[], trace, &mut out);
-        let pr = run_p::<C>(&s, &c.read_script, c.read_tail, &[], &[], false, trace, &mut out);
+        let pr = run_p::<C>(&s, &c.read_script, c.read_tail, &c.cancel, &[], false, trace, &mut out);
         for (name, fe) in [("B", &b), ("A", &ar.fe), ("P", &pr.fe)] {
             if fe.pkt() != Some(&p) {
                 out.violate(
